@@ -295,7 +295,11 @@ func (ex *Exec) runPath(st *State) {
 					// a complete path: its model is a full replay vector (witness for vacuity / translation validation)
 					func() {
 						defer func() { recover() }()
-						ex.witness(st, "path-end")
+						if len(st.outputs) > 0 {
+							ex.witness(st, "path-end-out")
+						} else {
+							ex.witness(st, "path-end")
+						}
 					}()
 				}
 				if len(ex.res.Samples) < 3 && pe.reason == "done" && len(st.pc) > 0 {
